@@ -210,7 +210,7 @@ def mtColWidths (border : Bool) (n : Nat) (padded : List Int) (spaceToAdd : Int)
     if (i : Int) < numToSpace then w + per + (if (i : Int) < rem then 1 else 0) else w
 
 theorem makeTable_eq (data : List (List (List α))) (width : Int) (header border : Bool) (charSet : List α) :
-    makeTable cx data width header border charSet =
+    makeTableCore cx data width header border charSet =
       if data.isEmpty then []
       else
         let n := data.foldl (fun m r => max m r.length) 0
@@ -228,8 +228,10 @@ theorem makeTable_regenerated (h : Gen.Code.makeTable_extracted = true) (data : 
       pure ({ lines := makeTable cx data width header border charSet, sep := lineSep, trailing := false } : Block α) := by
   first
     | exact absurd h (by decide)
-    | (rw [makeTable_eq]
-       unfold Gen.Code.makeTable
+    | (unfold Gen.Code.makeTable makeTable
+       simp only [ite_pure_bind]
+       generalize (if width < 0 then (0 : Int) else width) = width
+       rw [makeTable_eq]
        simp only [parseTableCharSet_regenerated cx (by decide), buildTable_regenerated cx (by decide),
          blockNew_regenerated cx (by decide)]
        go_norm
